@@ -605,7 +605,19 @@ def rule_r5(ctx) -> List[R.Inst]:
         t = _split_test(M.fn(TP_META + "." + pred).node)
         file, line = fn_loc(M, TP_META + "." + pred)
         if t is None:
-            insts.append(R.undec("C01.R5", pred, file, line, "classifier shape not recognised"))
+            # a classifier that orders a slot's numeric value (sign of the code) instead of testing the flag slot the
+            # writers set: the format distinguishes the two line kinds by the 'uninherited' flag, whatever the sign
+            cfn = M.fn(TP_META + "." + pred).node
+            ords = [c for c in ast.walk(cfn) if isinstance(c, ast.Compare) and isinstance(c.ops[0], (ast.Gt, ast.GtE, ast.Lt, ast.LtE))
+                    and any(C.subscript_const_index(x) for x in ast.walk(c))]
+            if ords:
+                si = [C.subscript_const_index(x) for x in ast.walk(ords[0]) if C.subscript_const_index(x)][0]
+                insts.append(R.viol("C01.R5", pred, file, ords[0].lineno,
+                                    f"{pred} decides by the sign of slot {si[1]} ('{unparse(ords[0])}'), not by the flag slot the writers "
+                                    f"set: a tempo point with a negative bpm is read back as a scroll-velocity point and a negative SV "
+                                    f"multiplier as a tempo point", construct=f"{pred}: {unparse(ords[0])}"))
+            else:
+                insts.append(R.undec("C01.R5", pred, file, line, "classifier shape not recognised"))
             continue
         sep, ln, idx, val = t
         shapes[pred] = t
@@ -848,6 +860,15 @@ def rule_r8(ctx) -> List[R.Inst]:
         insts.append(R.undec(rid, key, file, fx.node.lineno, "shape of column_to_x_axis not recognised (or width unknown)"))
     else:
         col = params_of(fx.node)[0]
+        if isinstance(b, ast.BinOp) and isinstance(b.op, ast.FloorDiv) and not rounding:
+            # a // b keeps the operands' type: a float64 column (any chart that went through a stack write-back) gives 192.0
+            as_div = ast.BinOp(left=b.left, op=ast.Div(), right=b.right)
+            if sym.canon(as_div).same(sym.parse(f"({col} + 1/2) * {W} / keys")):
+                insts.append(R.viol(rid, key, file, rx[0].lineno,
+                                    f"'{unparse(b)}' is the right bucket midpoint but keeps the type of '{col}': after a rate change or a "
+                                    f"stack edit the column is float64 and x is written as '192.0', which is not a valid hit-object "
+                                    f"field (and does not parse back); wrap it in int()", construct=unparse(e)))
+                return insts
         r = sym.canon(b)
         want = sym.parse(f"({col} + 1/2) * {W} / keys")
         if r.same(want) and set(rounding) <= {"int", "floor"} and rounding:
